@@ -278,6 +278,24 @@ def install(it):
             cache[id(ds)] = (ds, it.p.fresh_bytes('encoded_ds'))
         return cache[id(ds)][1]
 
+    @reg('encoded_element')
+    def encoded_element(it, args, kw):
+        """dsutils.encode_element: the byte string pydicom's writer produces for one element is a
+        function of its tag and value (assumed; audited natively).  One fresh byte string per
+        (tag, value) -- the same element with the same value always gives the same bytes."""
+        e = args[0]
+        if not isinstance(e, Obj) or 'tag' not in e.fields:
+            raise Unsupported('encoded_element(%r)' % (e,))
+        v = e.fields.get('value')
+        vk = ('t', v.get_id()) if smt.is_z3(v) else ('c', repr(v))
+        key = (repr(e.fields['tag']), vk)
+        cache = it.p.ghost.setdefault('_encoded_elems', {})
+        if key not in cache:
+            b = it.p.fresh_bytes('element_bytes')
+            it.p.assume(z3.Length(b) >= 8)      # tag (4) + length (4) + value
+            cache[key] = (v, b)
+        return cache[key][1]
+
     @reg('loop_havoc_sent')
     def loop_havoc_sent(it, args, kw):
         """sends inside a havoc'd loop are not counted by the `answered` clause (conservative)"""
